@@ -917,7 +917,12 @@ class Parser:
                     ensure(dyn_kwargs is None)
                     key = self.stream.current.value
 
-                    if any(kwarg.key == key for kwarg in kwargs):
+                    # Python compares keyword names in NFKC normal form
+                    if any(
+                        unicodedata.normalize("NFKC", kwarg.key)
+                        == unicodedata.normalize("NFKC", key)
+                        for kwarg in kwargs
+                    ):
                         self.fail(
                             f"keyword argument {key!r} repeated",
                             self.stream.current.lineno,
